@@ -310,3 +310,44 @@ def mentions_local(x, local):
         if x and isinstance(x[0], int):
             return x[0] == local
     return False
+
+
+def edge_variant_labels(body):
+    """(bb, succ) -> set of (adt, variant) selected by that switch edge on an enum discriminant."""
+    labels = {}
+    for bb in range(body.n):
+        t = body.term(bb)
+        if t["k"] != "switch":
+            continue
+        dp = op_place(t["discr"])
+        if dp is None:
+            continue
+        vm = None
+        adt = None
+        for s in body.stmts(bb):
+            if s["d"] == place_local(dp) and s["rv"]["k"] == "discr" and s["rv"].get("variants"):
+                vm = {int(v): n for v, n in s["rv"]["variants"]}
+                adt = s["rv"].get("adt")
+        if not vm:
+            continue
+        listed = set()
+        for v, b in t["targets"]:
+            listed.add(int(v))
+            labels.setdefault((bb, b), set()).add((adt, vm.get(int(v), "?")))
+        for v, n in vm.items():
+            if v not in listed:
+                labels.setdefault((bb, t["otherwise"]), set()).add((adt, n))
+    return labels
+
+
+def dominated_by_variant(body, bb, adt_suffix, variant):
+    """True when every path from entry to `bb` takes a switch edge selecting exactly `variant` of an enum whose
+    path ends with `adt_suffix` (edges that may also select other variants do not count)."""
+    labels = edge_variant_labels(body)
+    cut = set()
+    for e, labs in labels.items():
+        if all(a and a.endswith(adt_suffix) and v == variant for a, v in labs):
+            cut.add(e)
+    if not cut:
+        return False
+    return bb not in body.reachable_edges(0, cut)
